@@ -1,9 +1,12 @@
-(* Run.v — top-level dispatch: TL (TN machine :: args) *)
+(* Run.v — top-level dispatch: TL (TN machine :: args).
+   Machines: 1 CMS mem, 3 Bloom mem, 5 HLL mem. *)
 From GX.Model Require Import Base.
-From GX.Runner Require Import RunCMS.
+From GX.Runner Require Import RunCMS RunBloom RunHLL.
 
 Definition run_case (c : tok) : tok :=
   match tok_L c with
   | TN 1 :: args => run_cms_case args
+  | TN 3 :: args => run_bloom_case args
+  | TN 5 :: args => run_hll_case args
   | _ => T_INVALID
   end.
